@@ -32,6 +32,7 @@ import (
 	"sync/atomic"
 	"time"
 
+	"deps.dev/util/resolve"
 	"deps.dev/util/resolve/dep"
 	"deps.dev/util/semver"
 	scalibr "github.com/google/osv-scalibr"
@@ -63,6 +64,7 @@ type req = guidedremediation.VerifC16Req
 type outcome = guidedremediation.VerifC16Outcome
 
 type universe struct {
+	eco     string // "" npm, "m" Maven, "p" PyPI: the system whose Semver() Patch.Compare's step 5 uses
 	grouped bool
 	vulns   []string
 	reqs    []req
@@ -117,7 +119,7 @@ func (u *universe) head() string {
 			es = append(es, hexList(ids, ".")+"="+reqList(o.Reqs)+"@"+hexList(o.Vulns, ","))
 		}
 	}
-	return fmt.Sprintf("patches %s %s %s %s", hx.B(u.grouped), hexList(u.vulns, ","), reqList(u.reqs), hx.Join(es, "|"))
+	return fmt.Sprintf("patches %s%s %s %s %s", hx.B(u.grouped), u.eco, hexList(u.vulns, ","), reqList(u.reqs), hx.Join(es, "|"))
 }
 
 func unhexList(s, sep string) []string {
@@ -149,7 +151,7 @@ func parseReqs(s string) []req {
 
 func parsePatchesCase(l string) (*universe, [][]string) {
 	t := strings.Split(l, " ")
-	u := &universe{grouped: t[1] == "1", vulns: unhexList(t[2], ","), reqs: parseReqs(t[3]), table: map[string]outcome{}}
+	u := &universe{grouped: strings.HasPrefix(t[1], "1"), eco: t[1][1:], vulns: unhexList(t[2], ","), reqs: parseReqs(t[3]), table: map[string]outcome{}}
 	if t[4] != "-" {
 		for _, e := range strings.Split(t[4], "|") {
 			kv := strings.Split(e, "=")
@@ -277,7 +279,7 @@ func runPatches(u *universe, sched [][]string) (pending []string, reply string) 
 				done <- res{pan: true}
 			}
 		}()
-		ps, err := guidedremediation.VerifC16ComputePatches(u.reqs, u.vulns, u.grouped, func(ids []string) outcome {
+		ps, err := guidedremediation.VerifC16ComputePatchesSys(sysOf(u.eco), u.reqs, u.vulns, u.grouped, func(ids []string) outcome {
 			c := &call{ids: ids, gate: make(chan struct{}), delivered: make(chan struct{})}
 			announce <- c
 			select {
@@ -437,7 +439,7 @@ func runPatches(u *universe, sched [][]string) (pending []string, reply string) 
 		np, nu := 0, 0
 		for _, p := range r.ps {
 			for _, pu := range p.PackageUpdates {
-				if _, err := semver.NPM.Parse(pu.VersionTo); err == nil {
+				if _, err := semverOf(u.eco).Parse(pu.VersionTo); err == nil {
 					np++
 				} else {
 					nu++
@@ -449,9 +451,9 @@ func runPatches(u *universe, sched [][]string) (pending []string, reply string) 
 			dev = " dev=1"
 		}
 		if np > 0 && nu > 0 {
-			return nil, "res=unspecified raw=" + showPatches(r.ps) + dev
+			return nil, "res=unspecified done=1 raw=" + showPatches(r.ps) + dev
 		}
-		return nil, "res=" + showPatches(r.ps) + dev
+		return nil, "res=" + showPatches(r.ps) + " done=1" + dev
 	case c := <-announce:
 		// a call the controller did not know about (late or unpredicted): still pending — hand it back to the enumeration
 		pend = append(pend, c)
@@ -520,6 +522,124 @@ func enumPatches(u *universe, limit int, emit func(c, r string), rng *rand.Rand)
 	}
 	dfs(nil)
 	return n
+}
+
+
+// ---- ecosystems: Patch.Compare's step 5 goes through resolved.Manifest.System().Semver().Parse / Compare
+
+func sysOf(eco string) resolve.System {
+	switch eco {
+	case "m":
+		return resolve.Maven
+	case "p":
+		return resolve.PyPI
+	}
+	return resolve.NPM
+}
+
+func semverOf(eco string) semver.System { return sysOf(eco).Semver() }
+
+// version forms per style; the Lean driver ranks them (Drivers/C16.lean `parseEco`): for Maven/PyPI "N.0" and "N.0.0" are two
+// SPELLINGS of one version (step 5 returns 0, step 6 separates the strings), "N.0-rc1" / "N.0rc1" is the pre-release just below.
+const (
+	styleNPM = iota
+	styleRelax
+	styleMaven
+	stylePyPI
+)
+
+func styleEco(style int) string { return []string{"", "", "m", "p"}[style] }
+
+func ver(style, n int) string {
+	switch style {
+	case styleRelax:
+		return fmt.Sprintf("^%d.0.0", n)
+	case styleMaven, stylePyPI:
+		return fmt.Sprintf("%d.0", n)
+	}
+	return fmt.Sprintf("%d.0.0", n)
+}
+
+// ecoRank: what the driver computes; ok=false = does not parse as a single version
+func ecoRank(eco, s string) (int, bool) {
+	num := func(t string) (int, bool) {
+		if t == "" || (len(t) > 1 && t[0] == '0') {
+			return 0, false
+		}
+		n := 0
+		for _, c := range t {
+			if c < '0' || c > '9' {
+				return 0, false
+			}
+			n = n*10 + int(c-'0')
+		}
+		return n, true
+	}
+	switch eco {
+	case "":
+		if strings.HasSuffix(s, ".0.0") {
+			if n, ok := num(strings.TrimSuffix(s, ".0.0")); ok {
+				return n, true
+			}
+		}
+		return 0, false
+	default:
+		pre := map[string]string{"m": ".0-rc1", "p": ".0rc1"}[eco]
+		if strings.HasSuffix(s, pre) {
+			if n, ok := num(strings.TrimSuffix(s, pre)); ok {
+				return 2 * n, true
+			}
+		}
+		for _, suf := range []string{".0.0", ".0"} {
+			if strings.HasSuffix(s, suf) {
+				if n, ok := num(strings.TrimSuffix(s, suf)); ok {
+					return 2*n + 1, true
+				}
+			}
+		}
+		return 0, false
+	}
+}
+
+// checkEcos asserts, against the real deps.dev semver systems, everything the driver's ranking assumes about the version
+// strings the universes use: they parse, and Compare orders them as their ranks do (equal ranks <=> Compare = 0).
+func checkEcos() {
+	for _, eco := range []string{"", "m", "p"} {
+		sv := semverOf(eco)
+		var pool []string
+		for n := 1; n <= 45; n++ {
+			switch eco {
+			case "":
+				pool = append(pool, fmt.Sprintf("%d.0.0", n))
+			case "m":
+				pool = append(pool, fmt.Sprintf("%d.0", n), fmt.Sprintf("%d.0.0", n), fmt.Sprintf("%d.0-rc1", n))
+			case "p":
+				pool = append(pool, fmt.Sprintf("%d.0", n), fmt.Sprintf("%d.0.0", n), fmt.Sprintf("%d.0rc1", n))
+			}
+		}
+		sgn := func(x int) int {
+			if x < 0 {
+				return -1
+			} else if x > 0 {
+				return 1
+			}
+			return 0
+		}
+		for _, a := range pool {
+			va, err := sv.Parse(a)
+			ra, ok := ecoRank(eco, a)
+			if err != nil || !ok {
+				panic(fmt.Sprintf("eco %q: %q must parse (%v, %v)", eco, a, err, ok))
+			}
+			for _, b := range pool {
+				vb, _ := sv.Parse(b)
+				rb, _ := ecoRank(eco, b)
+				if sgn(va.Compare(vb)) != sgn(ra-rb) {
+					panic(fmt.Sprintf("eco %q: Compare(%q,%q)=%d but ranks %d,%d", eco, a, b, va.Compare(vb), ra, rb))
+				}
+			}
+		}
+	}
 }
 
 var parsable = []string{"2.0.0", "3.0.0", "9.0.0", "10.0.0", "11.0.0"}
@@ -635,22 +755,17 @@ func twinUniverses() []*universe {
 	set := func(x, y string) []req { return []req{{Name: "x", Version: x}, {Name: "y", Version: y}} }
 	var us []*universe
 	for _, g := range []bool{true, false} {
-		for _, relax := range []bool{false, true} {
-			v := func(n int) string {
-				if relax {
-					return fmt.Sprintf("^%d.0.0", n)
-				}
-				return fmt.Sprintf("%d.0.0", n)
-			}
+		for _, style := range []int{styleNPM, styleRelax, styleMaven, stylePyPI} {
+			v := func(n int) string { return ver(style, n) }
 			// the demo shape
-			u := &universe{grouped: g, vulns: []string{"A", "B"}, reqs: base, table: map[string]outcome{}}
+			u := &universe{eco: styleEco(style), grouped: g, vulns: []string{"A", "B"}, reqs: base, table: map[string]outcome{}}
 			u.put([]string{"A"}, outcome{Reqs: set(v(2), "1.0.0"), Vulns: []string{"C"}})
 			u.put([]string{"B"}, outcome{Reqs: set(v(2), "1.0.0"), Vulns: []string{"C"}})
 			u.put([]string{"A", "C"}, outcome{Reqs: set(v(4), "1.0.0"), Vulns: nil})
 			u.put([]string{"B", "C"}, outcome{Reqs: set(v(3), "1.0.0"), Vulns: []string{"A"}})
 			us = append(us, u)
 			// three twins, the common patch introduces two vulnerabilities; one twin's follow-up fails, one changes nothing
-			u = &universe{grouped: g, vulns: []string{"A", "B", "E"}, reqs: base, table: map[string]outcome{}}
+			u = &universe{eco: styleEco(style), grouped: g, vulns: []string{"A", "B", "E"}, reqs: base, table: map[string]outcome{}}
 			for _, t := range []string{"A", "B", "E"} {
 				u.put([]string{t}, outcome{Reqs: set(v(2), "1.0.0"), Vulns: []string{"C", "D"}})
 			}
@@ -672,7 +787,7 @@ func twinUniverses() []*universe {
 			}
 			us = append(us, u)
 			// twins plus an unrelated attempt, follow-ups two levels deep
-			u = &universe{grouped: g, vulns: []string{"A", "B", "W"}, reqs: base, table: map[string]outcome{}}
+			u = &universe{eco: styleEco(style), grouped: g, vulns: []string{"A", "B", "W"}, reqs: base, table: map[string]outcome{}}
 			u.put([]string{"W"}, outcome{Reqs: set("1.0.0", v(2)), Vulns: []string{"A", "B"}})
 			u.put([]string{"A"}, outcome{Reqs: set(v(2), "1.0.0"), Vulns: []string{"W", "C"}})
 			u.put([]string{"B"}, outcome{Reqs: set(v(2), "1.0.0"), Vulns: []string{"W", "C"}})
@@ -681,6 +796,16 @@ func twinUniverses() []*universe {
 			u.put([]string{"A", "C", "F"}, outcome{Reqs: set(v(4), "1.0.0"), Vulns: []string{"W"}})
 			u.put([]string{"B", "C", "F"}, outcome{Reqs: set(v(5), "1.0.0"), Vulns: []string{"W", "A"}})
 			us = append(us, u)
+			if style == styleMaven || style == stylePyPI {
+				// two SPELLINGS of one version ("2.0" / "2.0.0": step 5 returns 0, step 6 compares the strings) and a pre-release just below
+				u = &universe{eco: styleEco(style), grouped: g, vulns: []string{"A", "B", "C"}, reqs: base, table: map[string]outcome{}}
+				pre := map[int]string{styleMaven: "2.0-rc1", stylePyPI: "2.0rc1"}[style]
+				u.put([]string{"A"}, outcome{Reqs: set("2.0", "1.0.0"), Vulns: []string{"B", "C"}})
+				u.put([]string{"B"}, outcome{Reqs: set("2.0.0", "1.0.0"), Vulns: []string{"A", "C"}})
+				u.put([]string{"C"}, outcome{Reqs: set(pre, "1.0.0"), Vulns: []string{"A", "B", "D"}})
+				u.put([]string{"C", "D"}, outcome{Reqs: set("3.0.0", "1.0.0"), Vulns: []string{"A", "B"}})
+				us = append(us, u)
+			}
 		}
 	}
 	return us
@@ -723,6 +848,9 @@ func randomUniverse(rng *rand.Rand) *universe {
 		u.vulns = append(u.vulns, ids[perm[i]])
 	}
 	style := rng.Intn(10) // 0..6 parsable only, 7..8 unparsable only, 9 mixed
+	if style <= 6 {
+		u.eco = []string{"", "", "m", "p"}[rng.Intn(4)] // the parsable pool means the same in all three systems (checkEcos)
+	}
 	pick := func() string {
 		switch {
 		case style <= 6:
@@ -806,30 +934,20 @@ func randomUniverse(rng *rand.Rand) *universe {
 // Grouped branch (override): one follow-up `ids ++ all`. Every attempt bumps x to its own version, so all patches are
 // distinct (CmpEqImpliesEq holds) and the expected result has one patch per attempt. Attempts over 3 and 5..7 accumulated
 // ids with fan-out >= 2 are the shapes where a follow-up slice built without cloning would share its backing array.
-func chainUniverse(grouped bool, depth int, fan, cont []int, relaxStyle, second bool) *universe {
+func chainUniverse(grouped bool, depth int, fan, cont []int, style int, second bool) *universe {
 	base := []req{{Name: "x", Version: "1.0.0"}, {Name: "y", Version: "1.0.0"}}
-	u := &universe{grouped: grouped, vulns: []string{"V0"}, reqs: base, table: map[string]outcome{}}
+	u := &universe{eco: styleEco(style), grouped: grouped, vulns: []string{"V0"}, reqs: base, table: map[string]outcome{}}
 	var keep []string // initial vulnerabilities no attempt of the chain fixes
 	if second {
 		u.vulns = append(u.vulns, "W")
 		keep = []string{"W"}
-		wv := "2.0.0"
-		if relaxStyle {
-			wv = "^2.0.0"
-		}
+		wv := ver(style, 2)
 		u.put([]string{"W"}, outcome{Reqs: []req{{Name: "x", Version: "1.0.0"}, {Name: "y", Version: wv}}, Vulns: []string{"V0"}})
 	}
 	n := 1
 	ver := func() string {
 		n++
-		v := fmt.Sprintf("%d.0.0", n)
-		if _, err := semver.NPM.Parse(v); err != nil {
-			panic("chain version does not parse: " + v)
-		}
-		if relaxStyle {
-			return "^" + v
-		}
-		return v
+		return ver(style, n)
 	}
 	bump := func() []req { return []req{{Name: "x", Version: ver()}, {Name: "y", Version: "1.0.0"}} }
 	task := []string{"V0"}
@@ -879,7 +997,7 @@ func chainUniverses(rng *rand.Rand, perDepth int) []*universe {
 			}
 			for _, g := range []bool{false, true} {
 				k++
-				us = append(us, chainUniverse(g, depth, fan, cont, k%3 == 0, k%4 == 1))
+				us = append(us, chainUniverse(g, depth, fan, cont, []int{styleRelax, styleNPM, styleMaven, styleNPM, stylePyPI, styleNPM}[k%6], k%4 == 1))
 			}
 		}
 	}
@@ -963,7 +1081,7 @@ func runFree(u *universe, gmp, rep int, stateful bool) string {
 	}
 	defer func() { guidedremediation.VerifC16PreRead = nil }()
 	return hx.Guard(func() string {
-		ps, err := guidedremediation.VerifC16ComputePatches(u.reqs, u.vulns, u.grouped, func(ids []string) outcome {
+		ps, err := guidedremediation.VerifC16ComputePatchesSys(sysOf(u.eco), u.reqs, u.vulns, u.grouped, func(ids []string) outcome {
 			if cl != nil {
 				return cl.answer(u.get(ids))
 			}
@@ -1439,6 +1557,7 @@ func main() {
 		return
 	}
 	checkPools()
+	checkEcos()
 	if !datasource.VerifWaitersSupported() {
 		fmt.Fprintln(os.Stderr, "c16gen: sync.WaitGroup layout unknown; cannot observe waiters")
 		os.Exit(4)
